@@ -1652,6 +1652,12 @@ class Interp:
                 return Opaque("-" + v.dotted)
         if isinstance(node.op, ast.UAdd):
             return v
+        if isinstance(node.op, ast.Invert) and type(v).__module__ == "numpy" and type(v).__name__ == "ndarray":
+            import numpy as _np
+            out = _np.empty(v.shape, dtype=object)
+            for idx_ in _np.ndindex(*v.shape):
+                out[idx_] = not self.truth(v[idx_], node)
+            return out
         if isinstance(node.op, ast.Invert) and type(v).__name__ == "Vec":
             from .libsum import Vec
             return Vec([not self.truth(x, node) for x in v.items])
@@ -2232,6 +2238,9 @@ class Interp:
                     return Num.atom(f"{which}({I.describe(a[0])})")
                 if all(isinstance(x, Num) and x.is_const() for x in items) and items:
                     return (min if which == "min" else max)(items, key=lambda x: x.value())
+                if items and all((isinstance(x, Num) and x.is_const()) or (_is_sym(x) and x.is_number and x.is_real) for x in items):
+                    # concrete numbers in mixed spelling (sympy mode)
+                    return (min if which == "min" else max)(items, key=lambda x: x.value() if isinstance(x, Num) else _sp.nsimplify(x))
                 return Num.atom(f"{which}({','.join(I.describe(x) for x in items)})")
             return f
 
